@@ -2,6 +2,7 @@
 
 from __future__ import annotations
 
+import ast
 import json
 import os
 import time
@@ -29,6 +30,16 @@ class Ctx:
 
         _summary.SEQ_TEXTS = set(repo.seq_texts) if hasattr(repo, "seq_texts") else set()
         _summary.STR_ATTRS = set(repo.str_attrs) if hasattr(repo, "str_attrs") else set()
+        from . import normal as _normal
+
+        fresh, stale = set(), set()
+        for f in getattr(repo, "functions", ()):
+            rets = [n for n in ast.walk(f.node) if isinstance(n, ast.Return)]
+            if not rets and any("abstractmethod" in ast.dump(d) for d in f.node.decorator_list):
+                continue  # the declaration of the property in the abstract base
+            is_prop = any(isinstance(d, ast.Name) and d.id == "property" for d in f.node.decorator_list)
+            (fresh if is_prop and rets and all(isinstance(r.value, ast.Dict) for r in rets) else stale).add(f.node.name)
+        _normal.FRESH_DICT_PROPS = fresh - stale
         # class hierarchy facts for case tables: isinstance(x, Sub) implies isinstance(x, Base)
         from .props import _codec
 
